@@ -169,13 +169,13 @@ def shard(ctx: Ctx) -> None:
                     break
     # a device that completes the Noise handshake (it has the key) but is not the expected one: the name arrives in the ServerHello (current
     # firmware), or - ServerHello without a name, firmware before 2022.2 - only in the API hello; either way BadNameAPIError and nothing after it
-    for where in ("server-hello", "api-hello-only"):
+    for where in ("server-hello", "server-hello+mac-field", "api-hello-only"):
         for traffic in (False, True):
             idx += 1
             if not ctx.mine(idx):
                 continue
             with Sim() as sim:
-                cfg = DeviceConfig(name="bedroom", noise_psk=PSK)
+                cfg = DeviceConfig(name="bedroom", noise_psk=PSK, noise_hello_mac=where.endswith("mac-field"))
                 if where == "api-hello-only":
                     cfg.noise_name = None
                 if traffic:
@@ -193,7 +193,7 @@ def shard(ctx: Ctx) -> None:
                 dev = sim.device(cfg)
                 cli = sim.client(noise_psk=base64.b64encode(PSK).decode(), expected_name="kitchen", keepalive=1e5)
                 delivered: list[Any] = []
-                c0 = sim.call("connect", lambda: cli.connect(on_stop=sim.on_stop_cb(), login=False))
+                c0 = sim.call("connect", lambda: cli.connect(on_stop=sim.on_stop_cb(), login=traffic))
                 sim.run(until=lambda: c0.done, max_time=sim.clock + 100)
                 if c0.outcome == "ok":
                     try:
@@ -213,3 +213,14 @@ def shard(ctx: Ctx) -> None:
                     res.violation(f"C04/S/delivered-after-name-mismatch/{where}", f"{len(delivered) + len(sim.deliveries)} messages of the wrong device were delivered", case)
                 if sim.conns and sim.conns[0].obj.connection_state.name != "CLOSED":
                     res.violation(f"C04/S/not-closed/name-mismatch/{where}", f"state {sim.conns[0].obj.connection_state.name}", case)
+                if where.startswith("server-hello"):
+                    # the name arrives with the ServerHello, before the handshake completes: the session ends there - no API message is written
+                    # to the wrong device (a login would carry the password) and nothing it sends reaches the connection
+                    got_api = [r["name"] for c in dev.conns for r in c.received]
+                    if got_api:
+                        res.violation(f"C04/S/wrote-after-name-mismatch/{where}", f"the wrong device decoded {got_api} from the client after announcing its name", case,
+                                      trace=sim.trace(40))
+                    pk = [p for v in sim.conns for p in v.packets]
+                    if pk:
+                        res.violation(f"C04/S/delivered-after-name-mismatch/{where}", f"{len(pk)} messages of the wrong device reached the connection "
+                                      f"(types {[p[1] for p in pk][:5]})", case, trace=sim.trace(40))
